@@ -13,9 +13,18 @@ TReset == /\ Ev("reset") /\ pending = {} /\ lin = {}
 TCall == /\ Ev("call")
          /\ pending' = pending \cup {[id |-> Trace[l].id, op |-> Trace[l].op, tx |-> Trace[l].tx, prio |-> Trace[l].prio]}
          /\ l' = l + 1 /\ UNCHANGED <<c, lin>>
+(* PopWithTimer ("PopT") is a Pop that may give up: it takes effect either as a Pop of a non-empty queue, or, the timer   *)
+(* having fired, as nothing at all -- it answers 0 and the queue is what it was (a transaction pushed meanwhile stays).   *)
 TLin == \E p \in pending :
-         /\ c' = QApply(c, p)
-         /\ lin' = lin \cup {[id |-> p.id, res |-> QRes(c, p)]}
+         /\ \/ /\ p.op # "PopT"
+               /\ c' = QApply(c, p)
+               /\ lin' = lin \cup {[id |-> p.id, res |-> QRes(c, p)]}
+            \/ /\ p.op = "PopT" /\ c.q # {}
+               /\ c' = QApply(c, [p EXCEPT !.op = "Pop"])
+               /\ lin' = lin \cup {[id |-> p.id, res |-> Best(c).tx]}
+            \/ /\ p.op = "PopT"
+               /\ c' = c
+               /\ lin' = lin \cup {[id |-> p.id, res |-> 0]}
          /\ pending' = pending \ {p} /\ UNCHANGED l
 TRet == /\ Ev("ret")
         /\ \E r \in lin : r.id = Trace[l].id /\ r.res = Trace[l].res /\ lin' = lin \ {r}
